@@ -48,6 +48,7 @@ inductive LAct where
   | closeUnreg                  -- Listener.Close (first call only): removeListener
   | closeAcc                    -- Listener.Close: acceptor.Close()
   | syncCheck | syncListen | syncDecide | acceptWake | syncFail
+  | syncListenFail              -- the transport factory's Listen fails: Sync returns that error, the listener object stays as it is (a later Sync may succeed)
   deriving DecidableEq, Repr
 
 def lstep (s : LSt) : LAct → Option LSt
@@ -69,6 +70,7 @@ def lstep (s : LSt) : LAct → Option LSt
       some { s with pc := if s.mark then .returned true else .checked }
     else none
   | .syncListen => if s.pc = .checked then some { s with pc := .created, acc := .open } else none
+  | .syncListenFail => if s.pc = .checked then some { s with pc := .idle } else none
   | .syncDecide =>
     if s.pc = .created then
       if s.mark || s.ctxDone then some { s with acc := .closed, pc := .returned true }   -- close the fresh acceptor, ErrServerClosed
